@@ -577,6 +577,15 @@ def gen_paced(r, n):
                 bursts.append([("mkdir", a), ("rename", a, b)])
                 dirs.add(b)
                 vacated.append(a)
+        elif k < 0.6 and outside:     # a directory tree arrives from outside and is renamed again at once
+            o = r.choice(sorted(outside))
+            b1, b2 = r.choice(sorted(dirs)), r.choice(sorted(dirs))
+            if b1.count("/") < 4 and b2.count("/") < 4:
+                od, of = outside.pop(o)
+                q1, q2 = f"{b1}/a{used}", f"{b2}/ar{used}"
+                bursts.append([("rename", o, q1), ("rename", q1, q2)])
+                dirs.update(q2 + q[len(o):] for q in od); files.update(q2 + q[len(o):] for q in of)
+                vacated.append(q1)
         elif k < 0.7:       # file storm
             ops = []
             fl = sorted(files)
